@@ -539,7 +539,10 @@ fn hash<T: ?Sized + Hash>(t: &T) -> u64 {
     let mut hasher = CaoHasher::default();
     t.hash(&mut hasher);
     let result = hasher.finish();
-    debug_assert_ne!(result, 0, "0 hash is reserved");
+    // 0 marks an empty bucket, so a key that hashes to 0 is stored under another fixed hash
+    if result == 0 {
+        return 0x9E3779B9;
+    }
     result
 }
 
